@@ -1,8 +1,11 @@
-(* Chan/Bounded.v — the parts of C19 that are NOT proved for all sizes: the variadic select
-   form of deriveJoin.  For it only a
-   bounded statement is established (exhaustive exploration of ALL interleavings of the
-   expected IR for the listed small configurations, by vm_compute in the kernel); the
-   theorems are therefore named ..._partial.  What is missing is said at each. *)
+(* Chan/Bounded.v — bounded cross-check of the variadic select form of deriveJoin: exhaustive
+   exploration of ALL interleavings of the expected IR for the listed small configurations, by
+   vm_compute in the kernel.  The variadic form is NO LONGER partial: safety, termination,
+   deadlock freedom, absence of leaks and "out closed only after every input is drained" are
+   proved for all n >= 1, item lists, capacities and interleavings in JoinVarProofs.v /
+   JoinVarLive.v / JoinVarLive2.v.  The bounded statement keeps its historical name
+   (..._bounded_partial: it is partial in that it covers only these configurations); it remains
+   true and is kept as an independent check of the explorer against the proved theorems. *)
 From Coq Require Import List Arith Bool NArith FSets.FSetPositive.
 Import ListNotations.
 From Verif Require Import Chan.Sem Chan.Expected Chan.Explore.
